@@ -32,6 +32,19 @@ CHECKS = {
         "Trusted: the predicate's reading of the statement and doc/health_checks.md; back-off expiry by wall clock is "
         "exercised in ~1% of histories; the dead API BackendMap::close_backend_connection (no caller in sozu) is not driven.",
     ),
+    "C19": (
+        "exploration",
+        "online reference-model monitor over the real UdpManager's output stream",
+        "DESIGN.md section 3 C19",
+        "Seeded ~2000-step histories (client/backend datagrams, immediate/late/stale/duplicate backend resolutions, virtual "
+        "clock with an emulated shell timer, cap changes below the live count, cluster reconfiguration incl. affinity flips, "
+        "drain, abort, close_all, PPv2 modes, request/response limits) on the real sans-io UdpManager; every Output is folded "
+        "online into a flow model written from the statement (stickiness, isolation, integrity, cap, exactly-once teardown); "
+        "violating histories are shrunk by delta debugging. Held on the histories explored.",
+        "Trusted: the model's reading of the documented choices (cap shrink never evicts; idle = no datagram in either "
+        "direction); behaviours the statement leaves open are counted as exempt_* (strict mode: --opt strict=1). The "
+        "socket shell lib/src/udp.rs is not driven by this part.",
+    ),
 }
 
 ALL = ["C%02d" % i for i in range(1, 21)]
